@@ -70,11 +70,18 @@ def evaluate(reg, pol, impl, model):
         d = impl.get('disp ' + tup)
         if d is None:
             bad('C01', 'no dispatch observed for tuple %s' % tup); continue
+        def blame(got):
+            # a definition that runs must be the dominating one (C01); an unresolvable call must not be dispatched and
+            # must be reported with the right status (C02)
+            ps = []
+            if got.startswith('d') or sp.startswith('d'): ps.append('C01')
+            if not sp.startswith('d'): ps.append('C02')
+            return ps
         if d != sp:
-            bad('C01' if sp.startswith('d') else 'C02', 'walk of dispatch_data for call %s gives %s, the specification says %s' % (tup, d, sp))
+            for pp in blame(d): bad(pp, 'walk of dispatch_data for call %s gives %s, the specification says %s' % (tup, d, sp))
         r = impl.get('resolve ' + tup)
         if r is not None and r != sp:
-            bad('C01' if sp.startswith('d') else 'C02', 'method::resolve for call %s gives %s, the specification says %s' % (tup, r, sp))
+            for pp in blame(r): bad(pp, 'method::resolve for call %s gives %s, the specification says %s' % (tup, r, sp))
         c = impl.get('call ' + tup)
         if c is not None:
             if sp.startswith('d'):
@@ -85,6 +92,8 @@ def evaluate(reg, pol, impl, model):
                 want = 'error status %d arity %d types %s' % (1 if sp == 'ni' else 2, len(ids), ' '.join(ids))
                 if c != want:
                     bad('C02', 'call %s: got "%s", expected "%s"' % (tup, c, want))
+                    if c.startswith('ran '):
+                        bad('C01', 'call %s: %s although no applicable definition is more specific than all the others (%s)' % (tup, c, sp))
         elif not sp.startswith('d'):
             out['err_tuples'] += 1
     # ---- C03: next
@@ -246,9 +255,11 @@ def summarize(ctx, res, prop, related=()):
             if msgs:
                 nfail += 1
                 if nfail <= 3:
+                    small = shrink_registry(e['reg'], p, prop) if nfail == 1 else e['reg']
                     ctx.violation('%s (case %s, policy %s)' % (msgs[0], e['name'], p),
                                   {'case': e['name'], 'policy': p, 'registry': e['reg'], 'failures': msgs[:10], 'corpus_file': e['corpus'],
-                                   'replay_case': case_text(e['name'], e['reg'], [p])})
+                                   'shrunk_registry': small, 'replay_case': case_text(e['name'], small, [p]),
+                                   'original_case': case_text(e['name'], e['reg'], [p])})
             if r['ndiffs']:
                 ndiff += 1
                 if ndiff <= 3 and not msgs:
@@ -914,3 +925,57 @@ def unknown_suite(tier, seed):
         res['wall'] = time.time() - t0
         return res
     return cached('unknown', tier, seed, compute)
+
+
+# --------------------------------------------------------------------------- shrinking a failing registry
+
+def _candidates(reg):
+    """smaller registries: one method, one definition, one class or one record removed"""
+    out = []
+    for mi in range(len(reg['methods'])):
+        r = dict(reg); r['methods'] = reg['methods'][:mi] + reg['methods'][mi + 1:]; out.append(r)
+    for mi, m in enumerate(reg['methods']):
+        for di in range(len(m['defs'])):
+            r = dict(reg); ms = [dict(x) for x in reg['methods']]; ms[mi]['defs'] = m['defs'][:di] + m['defs'][di + 1:]; r['methods'] = ms; out.append(r)
+    classes = sorted(set(rec[0] for rec in reg['records']))
+    for c in classes:
+        used = any(c in m['vp'] or any(c in d['vp'] for d in m['defs']) for m in reg['methods'])
+        if used: continue
+        r = dict(reg); r['records'] = [[x, a, [b for b in bs if b != c]] for x, a, bs in reg['records'] if x != c]; out.append(r)
+    for ri in range(len(reg['records'])):
+        c = reg['records'][ri][0]
+        if sum(1 for rec in reg['records'] if rec[0] == c) > 1:
+            r = dict(reg); r['records'] = reg['records'][:ri] + reg['records'][ri + 1:]; out.append(r)
+    for ri, (c, a, bs) in enumerate(reg['records']):
+        for bi in range(len(bs)):
+            r = dict(reg); recs = [list(x) for x in reg['records']]; recs[ri] = [c, a, bs[:bi] + bs[bi + 1:]]; r['records'] = recs; out.append(r)
+    return out
+
+
+def shrink_registry(reg, pol, prop, max_rounds=12):
+    """greedy shrinking: keep a smaller registry whenever the implementation still violates `prop` on it
+    (judged by the extracted specification through `evaluate`; a crash counts)"""
+    binp, _ = corelib.h1_binary(); mdl, _ = corelib.model_binary()
+    if not binp or not mdl:
+        return reg
+    cur = reg
+    for _ in range(max_rounds):
+        cands = _candidates(cur)
+        if not cands: break
+        text = ''.join(case_text('s%d' % i, r, [pol]) for i, r in enumerate(cands))
+        impl = run_h1(binp, text, timeout=300)
+        model = run_model(mdl, [('s%d' % i, query_text('s%d' % i, r)) for i, r in enumerate(cands)], timeout=300)
+        nxt = None
+        for i, r in enumerate(cands):
+            ir = impl.get('s%d' % i)
+            if not ir: continue
+            mobs = parse_obs(model.get('s%d' % i, []))
+            if mobs.get('update') != 'ok': continue           # keep the registry well formed
+            if ir['crashed']:
+                nxt = r; break
+            ev = evaluate(r, pol, parse_obs(split_by_policy(ir['lines']).get(pol, [])), mobs)
+            if ev['fail'].get(prop):
+                nxt = r; break
+        if nxt is None: break
+        cur = nxt
+    return cur
